@@ -21,6 +21,12 @@ def same_val(exp, got):
         if got.get("inf"):
             return False
         return len(exp["v"]) == len(got["v"]) and all(same_val(a, b) for a, b in zip(exp["v"], got["v"]))
+    if exp.get("t") == "bagseq":
+        # a listing whose order the documentation leaves open: compared as a multiset of lists
+        if got.get("t") != "seq" or got.get("inf") or len(exp["v"]) != len(got["v"]):
+            return False
+        key = lambda x: json.dumps(x, sort_keys=True)
+        return sorted(key(norm_plain(a)) for a in exp["v"]) == sorted(key(norm_plain(b)) for b in got["v"])
     if exp.get("t") == "stack":
         return got.get("t") == "stack" and len(exp["v"]) == len(got["v"]) and all(same_val(a, b) for a, b in zip(exp["v"], got["v"]))
     if exp.get("t") in ("struct",) and got.get("t") == "struct":
@@ -28,6 +34,15 @@ def same_val(exp, got):
     if exp.get("t") == "opt" and got.get("t") == "opt":
         return exp["has"] == got["has"] and (not exp["has"] or same_val(exp["v"], got["v"]))
     return corecheck.same(exp, got)
+
+
+def norm_plain(x):
+    """a nested sequence value reduced to plain lists of ints (for order-insensitive comparison)"""
+    if isinstance(x, dict) and x.get("t") == "seq":
+        return [norm_plain(y) for y in x["v"]]
+    if isinstance(x, dict) and "v" in x:
+        return x["v"]
+    return x
 
 
 def norm(d):
